@@ -1,17 +1,20 @@
 import Driver.Proto
 import Model.Errs
+import Model.ErrsFmt
 open Proto Errs
 
 /-- driver state: the heap, the table of named error values, the counter that stands for pointer identity of
     foreign errors -/
 structure St where
-  heap : Heap := #[]
+  fh : FHeap := {}   -- the heap, the recorded stacks beside it, the number of captures
   vars : List (Nat × Val) := []
   uid : Nat := 0
   /-- foreign errors of value kinds (struct, string, int): Go's `==` is equality of the content, so equal (kind, message)
       pairs share one identity -/
   valueErrs : List (String × String) := []
   cloned : Bool := false   -- CloneWithPrefixMessage shares the rest of a chain: links then need not point forward
+
+def St.heap (s : St) : Heap := s.fh.h
 
 def St.get (s : St) (k : Nat) : Val := match s.vars.lookup k with | some v => v | none => .nilIface
 
@@ -54,8 +57,21 @@ def dump (s : St) : String :=
     (if !s.cloned && !wfb s.heap then " !heap-invariant-broken" else "")
 
 def assign (s : St) (k : Nat) (h : Heap) (v : Val) : St × String :=
-  let s' := { s with heap := h, vars := insertVar k v s.vars }
+  let s' := { s with fh := { s.fh with h := h }, vars := insertVar k v s.vars }
   (s', dump s')
+
+/-- assignment after an operation that may have captured or copied stacks -/
+def assignF (s : St) (k : Nat) (r : FHeap × Val) : St × String :=
+  let s' := { s with fh := r.1, vars := insertVar k r.2 s.vars }
+  (s', dump s')
+
+/-- what the `render` op adds to the dump: `%s`, `%q` (for quotable messages) and `%v`/`%+v` with the frame blocks replaced
+    by the tokens of the recorded stacks -/
+def rendering (s : St) : Val → String
+  | .ref id =>
+    " R:" ++ hexOfStr (fmtS s.heap id) ++ ":" ++ (match fmtQ s.heap id with | some q => hexOfStr q | none => "?") ++ ":" ++
+      hexOfStr (fmtV s.heap s.fh.T id)
+  | _ => ""
 
 def exec (s : St) (k : Nat) (op : String) (args : List String) : St × String :=
   match op, args with
@@ -63,7 +79,7 @@ def exec (s : St) (k : Nat) (op : String) (args : List String) : St × String :=
   | "tnil", [] => assign s k s.heap .typedNil
   | "fnil", [] => assign s k s.heap .foreignNil
   | "fnil", [_] => assign s k s.heap .foreignNil   -- a typed nil of any nilable kind is the one notion `foreignNil`
-  | "empty", [] => let r := newEmpty s.heap; assign s k r.1 r.2
+  | "empty", [] => assignF s k (newEmptyF s.fh)
   | "plain", [m] | "plain", [m, "ptr"] =>
     match strOfHex? m with
     | some m => assign { s with uid := s.uid + 1 } k s.heap (.plain s.uid m)
@@ -81,11 +97,11 @@ def exec (s : St) (k : Nat) (op : String) (args : List String) : St × String :=
     | none => (s, "bad-op")
   | "new", [m] | "newf", [m] =>
     match strOfHex? m with
-    | some m => let r := new s.heap m; assign s k r.1 r.2
+    | some m => assignF s k (newF s.fh (if op == "new" then 1 else 2) m)
     | none => (s, "bad-op")
   | "cause", [m, c] | "causef", [m, c] =>
     match strOfHex? m, varIx? c with
-    | some m, some c => let r := newWithCause s.heap m (s.get c); assign s k r.1 r.2
+    | some m, some c => assignF s k (newWithCauseF s.fh (if op == "cause" then 3 else 4) m (s.get c))
     | _, _ => (s, "bad-op")
   | "fwrap", [m, c] =>
     match strOfHex? m, varIx? c with
@@ -94,16 +110,15 @@ def exec (s : St) (k : Nat) (op : String) (args : List String) : St × String :=
   | "append", a :: rest =>
     match varIx? a, rest.mapM varIx? with
     | some a, some rest =>
-      let r := append s.heap (s.get a) (rest.map s.get)
-      assign s k r.1 (ptrVal r.2.1)
+      assignF s k (appendF s.fh 7 (s.get a) (rest.map s.get))
     | _, _ => (s, "bad-op")
   | "wrap", [a] =>
     match varIx? a with
-    | some a => let r := wrap s.heap (s.get a); assign s k r.1 r.2
+    | some a => assignF s k (wrapF s.fh 5 (s.get a))
     | none => (s, "bad-op")
   | "wraptyped", [a] =>
     match varIx? a with
-    | some a => let r := wrapTyped s.heap (s.get a); assign s k r.1 r.2
+    | some a => assignF s k (wrapTypedF s.fh 6 (s.get a))
     | none => (s, "bad-op")
   | "unwrap", [a] =>
     match varIx? a with
@@ -111,11 +126,11 @@ def exec (s : St) (k : Nat) (op : String) (args : List String) : St × String :=
     | none => (s, "bad-op")
   | "render", [a] =>   -- the harness renders the value with every verb (judged there); the result is the value itself
     match varIx? a with
-    | some a => assign s k s.heap (s.get a)
+    | some a => let r := assign s k s.heap (s.get a); (r.1, r.2 ++ rendering r.1 (s.get a))
     | none => (s, "bad-op")
   | "elem", [a, i] =>
     match varIx? a, i.toNat? with
-    | some a, some i => let r := elem s.heap (s.get a) i; assign s k r.1 r.2
+    | some a, some i => assignF s k (elemF s.fh (s.get a) i)
     | _, _ => (s, "bad-op")
   | "eon", [a] =>
     match varIx? a with
@@ -123,7 +138,7 @@ def exec (s : St) (k : Nat) (op : String) (args : List String) : St × String :=
     | none => (s, "bad-op")
   | "clone", [a, m] =>
     match varIx? a, strOfHex? m with
-    | some a, some m => let r := clone s.heap (s.get a) m; assign { s with cloned := true } k r.1 r.2
+    | some a, some m => assignF { s with cloned := true } k (cloneF s.fh (s.get a) m)
     | _, _ => (s, "bad-op")
   | _, _ => (s, "bad-op")
 
